@@ -340,6 +340,59 @@ theorem rows_agree_all_or_unary_special :
     (∀ p ∈ variadicPairs, rowAgrees true p.1 p.2 = true) ∨ opreduceUnarySpecial ≠ none := by
   decide +kernel
 
+
+namespace Witness
+
+def wxView (v : WV) : Option (List WV) := match v with | .tab => some [.n 7, .n 8] | _ => none
+def wxCall (_ : WV) (args : List WV) (_ : Nat → Option WV) (w : List String) : Except String (WV × (Nat → Option WV)) × List String :=
+  (.ok (.n args.length, fun _ => none), w ++ ["call"])
+def wxMake (_ : Op) (_ : List WV) (w : List String) : Except String WV × List String := (.error "unsupported", w)
+def wxPutIndex (_ : WV) (_ : Nat) (_ : WV) (w : List String) : Except String Unit × List String := (.error "unsupported", w)
+def wxNotIndexed (_ : WV) : String := "not indexed"
+def wxLoadUp (_ _ : Nat) (_ : List String) : WV := .n 0
+def wxSetUp (_ _ : Nat) (_ : WV) (w : List String) : List String := w
+def wxTypecheck (_ : WV) (_ : Nat) : Option String := none
+
+/-- a call oracle that logs the call and returns the number of arguments; the witness table is the 2-element indexed value -/
+def WX : CallPrims WP where
+  indexedView := wxView
+  notIndexed := wxNotIndexed
+  call := wxCall
+  make := wxMake
+  closure := fun _ => WV.mMul
+  constant := fun _ => WV.n 0
+  self := WV.mMul
+  loadUpvalue := wxLoadUp
+  setUpvalue := wxSetUp
+  typecheck := wxTypecheck
+  putIndex := wxPutIndex
+
+def runW (code : List Instr) (slots : List WV) : Option (Except String WV × List String) :=
+  execX WX (fun _ => false) code 10 ⟨slots, [], 0⟩ ([] : List String)
+
+def passCode : List Instr := [mkAI .loadInteger 3 9, mkAI .jumpIfNot 0 3, mkD .push 1, mkAE .call 2 0, mkD .return 2]
+def passCode' : List Instr := [⟨.noop, 0⟩, mkAI .jumpIfNot 0 3, mkD .push 1, mkAE .call 2 0, mkD .return 2]
+
+end Witness
+
+/-- non-vacuity: `(apply f 1 2 3 4 t)` inline is `push3; push; pusha; tcall` and makes one call with 4 + 2 arguments -/
+example : Witness.runW (emitApply 0 [1, 2, 3, 4] 5 none) [.mMul, .n 1, .n 2, .n 3, .n 4, .tab] = some (.ok (.n 6), ["call"]) := rfl
+
+/-- non-vacuity: a last argument that is not indexed raises before any call (empty call log) -/
+example : Witness.runW (emitApply 0 [1] 2 none) [.mMul, .n 1, .n 2] = some (.error "not indexed", []) := rfl
+
+/-- non-vacuity: `(f 1 ;t 2)` goes through push / push-array / push and one call with 1 + 2 + 1 arguments -/
+example : hasSpliced [⟨1, false⟩, ⟨2, true⟩, ⟨3, false⟩] = true ∧
+    Witness.runW (emitGenericCall 0 [⟨1, false⟩, ⟨2, true⟩, ⟨3, false⟩] none) [.mMul, .n 1, .tab, .n 2] = some (.ok (.n 4), ["call"]) :=
+  ⟨rfl, rfl⟩
+
+/-- non-vacuity of the pass theorems over the full interpreter: a function with a push, a call, a dead load and a conditional jump
+    (`ldi 3 9` is dead; movopt writes a noop over it; removing the noop retargets nothing here but shifts every pc) gives one result -/
+example : Witness.runW Witness.passCode [.mMul, .n 1, .n 0, .n 0] = some (.ok (.n 1), ["call"]) ∧
+    Witness.runW Witness.passCode' [.mMul, .n 1, .n 0, .n 0] = some (.ok (.n 1), ["call"]) ∧
+    Witness.runW (JanetModel.Bytecode.VMPasses.removeNoopsFull Witness.passCode') [.mMul, .n 1, .n 0, .n 0] = some (.ok (.n 1), ["call"]) :=
+  ⟨rfl, rfl, rfl⟩
+
 /-- the witness argument is a legal argument -/
 example : Witness.theArg.wf Witness.WP := by intro i h; cases h
 
